@@ -22,7 +22,10 @@ pub struct WriteMirror {
 
 extern "C" {
     // exported by diplomat-runtime; declared here with the documented C signatures
+    #[cfg(not(miri))]
     fn diplomat_simple_write(buf: *mut u8, buf_size: usize) -> WriteMirror;
+    #[cfg(miri)]
+    fn diplomat_simple_write(buf: *mut u8, buf_size: usize) -> diplomat_runtime::DiplomatWrite;
     fn diplomat_buffer_write_get_bytes(this: *const WriteMirror) -> *mut u8;
     fn diplomat_buffer_write_len(this: *const WriteMirror) -> usize;
 }
@@ -365,7 +368,13 @@ pub fn check(case: &Case, exact: bool) -> Result<(), String> {
         }
         Kind::Fixed { buf_size } => {
             let block = Guarded::new(*buf_size, exact);
+            // Natively the function is called through its documented C signature (returning the repr(C) mirror), as a foreign
+            // caller would. Miri insists on identical Rust types for a by-value return, so there the Rust item is called
+            // and the (layout-identical) result reinterpreted.
+            #[cfg(not(miri))]
             let mut mirror = unsafe { diplomat_simple_write(block.ptr(), *buf_size) };
+            #[cfg(miri)]
+            let mut mirror: WriteMirror = unsafe { std::mem::transmute(diplomat_simple_write(block.ptr(), *buf_size)) };
             let mp: *mut WriteMirror = &mut mirror;
             let usable = *buf_size - 1;
             let mut content: Vec<u8> = vec![];
